@@ -37,6 +37,11 @@ func runC09(c *Ctx) {
 	// datagrams of the shared socket the moment it is released, or the old generation's keys keep working there
 	for _, m := range findMultiListeners(c, "CLOSEDGUARD") {
 		ruleClosedGuard(c, m)
+		ruleCancelPump(c, m, "HANDOFF")
+	}
+	// every key of the list is tried on the datagram as it arrived: trial decryption must not write into the ciphertext
+	if ua := findUDP(c, "NOALIAS"); ua != nil {
+		ruleBuffers(c, ua, "NOALIAS")
 	}
 }
 
